@@ -23,6 +23,43 @@ FOREIGN_ATTR = "zzForeignAttr"
 UNLISTED_VAL = "zzUnlistedValue"
 
 
+_WORDS = {}
+
+
+def word_with(unit, sym):
+    """shortest child sequence the rule accepts that contains a child named sym (None: there is none)"""
+    key = (unit, sym)
+    if key not in _WORDS:
+        d = G["dfas"][unit]
+        start = (d.init, False)
+        prev = {start: None}
+        frontier = [start]
+        found = None
+        while frontier and found is None:
+            nxt = []
+            for st in frontier:
+                if st[1] and d.out[st[0]] == "ACCEPT":
+                    found = st
+                    break
+                for b in d.sigma:
+                    if b == c01.FOREIGN:
+                        continue
+                    t = (d.delta[st[0]][b], st[1] or b == sym)
+                    if t not in prev:
+                        prev[t] = (st, b)
+                        nxt.append(t)
+            frontier = nxt
+        w = None
+        if found is not None:
+            w = []
+            while prev[found] is not None:
+                found, b = prev[found]
+                w.append(b)
+            w.reverse()
+        _WORDS[key] = w
+    return _WORDS[key]
+
+
 def one_state(a, seed, fname, unlisted=None, decor=None):
     from metapype.model.node import Node
     from metapype.eml.exceptions import MetapypeRuleError
@@ -37,6 +74,13 @@ def one_state(a, seed, fname, unlisted=None, decor=None):
             return n, out
         base = c01.parent_for(unit, el, rules)
         p.content = base.content
+        if decor and decor.startswith("kids:"):
+            # attribute rules speak about the node's attributes: the same assignment on a node that HAS children (a valid
+            # sequence containing a child of the given name) gets the same verdict
+            w = word_with(unit, decor[5:])
+            if w is None:
+                return n, out
+            p = c01.realise(unit, el, w, rules)
         if decor == "prefix-unbound":          # the node's own prefix field and namespace map are not what attribute rules speak about
             p.prefix = "ns0"
         elif decor == "below-metadata":
@@ -123,6 +167,11 @@ def w_states(items):
             n_, out_ = one_state(a, seed, FOREIGN_ATTR, decor=decor)
             n += n_
             out += [(k + ":" + decor, d_, r_) for (k, d_, r_) in out_]
+        for sym in G["dfas"][unit].sigma:
+            if sym != c01.FOREIGN and unit != "@metadata":
+                n_, out_ = one_state(a, seed, FOREIGN_ATTR, decor="kids:" + sym)
+                n += n_
+                out += [(k + ":node-has-children", d_ + f" [children: a valid sequence containing {sym}]", dict(r_, children_with=sym)) for (k, d_, r_) in out_]
         # the one unlisted value realised by values that are not strings at all (a JSON model may carry false, 0, 1, null)
         if any(v == "~unlisted" for v in a["asg"].values()):
             for typed in (False, True, 0, 1, 0.0, None, ()):
